@@ -14,6 +14,7 @@ import (
 	"fmt"
 	"io"
 	"time"
+	"unsafe"
 
 	"circlsim/core"
 	"circlsim/refmodel/asconref"
@@ -174,7 +175,7 @@ func gen(r *core.PRNG, tier string) any {
 		p.Fam = []string{"keccakx2", "keccakx4"}[r.Intn(2)]
 		p.Param = r.Intn(2) // turbo
 		for i, n := 0, r.Range(1, 6); i < n; i++ {
-			p.Perm = append(p.Perm, Op{K: []string{"permute", "permute", "scribble"}[r.Intn(3)], N: r.Intn(1 << 16)})
+			p.Perm = append(p.Perm, Op{K: []string{"permute", "permute", "scribble", "move"}[r.Intn(4)], N: r.Intn(1 << 16)})
 		}
 	case 3: // Ascon
 		p.Fam = "ascon"
@@ -648,8 +649,28 @@ func execPerm(p *Plan, run *core.Run) {
 	if turbo {
 		nr = 12
 	}
-	var s4 keccakf1600.StateX4
-	var s2 keccakf1600.StateX2
+	// the state objects live in slots of an array: consecutive slots differ in their alignment
+	// modulo 32, and a state may be copied from one slot to the next and initialised again there
+	slots4 := make([]keccakf1600.StateX4, 5)
+	slots2 := make([]keccakf1600.StateX2, 5)
+	// which slot is 32-byte aligned depends on where the allocator put the array: slots are
+	// chosen by their actual alignment, so that a run does the same thing in every process
+	aligned := func(i int) bool {
+		if lanes == 4 {
+			return uintptr(unsafe.Pointer(&slots4[i]))&31 == 0
+		}
+		return uintptr(unsafe.Pointer(&slots2[i]))&31 == 0
+	}
+	pick := func(wantAligned bool, not int) int {
+		for i := 0; i < 5; i++ {
+			if i != not && aligned(i) == wantAligned {
+				return i
+			}
+		}
+		return (not + 1) % 5
+	}
+	slot := pick(p.Seed%2 == 0, -1)
+	s4, s2 := &slots4[slot], &slots2[slot]
 	var a []uint64
 	if lanes == 4 {
 		a = s4.Initialize(turbo)
@@ -679,6 +700,26 @@ func execPerm(p *Plan, run *core.Run) {
 			}
 			run.Tick(1)
 			run.Fault("lanes:permute")
+		case "move":
+			// the state is copied by value into the next slot and initialised there; the caller
+			// fills the buffer it gets again (Initialize makes no promise about the contents)
+			next := pick(!aligned(slot), slot) // to a slot of the other alignment class
+			if lanes == 4 {
+				slots4[next] = slots4[slot]
+				s4 = &slots4[next]
+				a = s4.Initialize(turbo)
+			} else {
+				slots2[next] = slots2[slot]
+				s2 = &slots2[next]
+				a = s2.Initialize(turbo)
+			}
+			slot = next
+			for j := 0; j < 25; j++ {
+				for l := 0; l < lanes; l++ {
+					a[j*lanes+l] = model[l][j]
+				}
+			}
+			run.Fault("history:state-copied-and-initialised-again")
 		case "scribble":
 			j, l := op.N%25, (op.N/25)%lanes
 			v := data.Uint64()
